@@ -17,8 +17,15 @@
                                Running t'  -> t is disabled until the state is ODone
    The user function f is an arbitrary finite sequence of [f_steps] opaque
    steps (its own effects; they appear in the trace as [EUser]) ending in a
-   result tuple [f_res]; every caller may pass a different one. f does not
-   call Do on the same object and does not panic (assumptions of the check).
+   result tuple [f_res] -- or, when [f_aborts] is set, ending WITHOUT
+   returning: the function panics (the panic propagates to the caller of Do)
+   or calls runtime.Goexit. For sync.Once both are the same: its deferred
+   `o.done.Store(1)` and `o.m.Unlock()` still run, so the Once is consumed
+   although `o.R = f()` never assigned anything. The goroutine that made the
+   call is then gone as far as this Once is concerned ([PDead]: it makes no
+   further calls; a caller that recovers the panic and goes on is the same as
+   another thread arriving later). Every caller may pass a different function.
+   f does not call Do on the same object (assumption of the check).
 
    Atomic steps of one call of Do by thread t (program counter [pc]):
      PIdle        -> PEnter f       the call is invoked                       EInv
@@ -27,6 +34,8 @@
                   -> (disabled)     once.Do found Running t'
      PRun f (S k) -> PRun f k       one step of the user function             EUser
      PRun f 0     -> PWrite res 0   f returns res                             EFin
+                  -> PDead          f panics / Goexits: the Once becomes ODone,
+                                    nothing is written, this caller never returns  EAbort
      PWrite res i -> PWrite res i+1 plain write o.R(i+1) = res[i]   (i < arity) EWrite
      PWrite res a -> PRead []       once.Do returns: state becomes ODone      EDone
      PRead acc    -> PRead acc++[R(i)]  plain read of o.R(i+1)      (i < arity) ERead
@@ -42,7 +51,7 @@ Section OnceModel.
   Variable zero : V.          (* the zero value of the result types *)
   Variable arity : nat.       (* 1 for Once1, 2 for Once2, 3 for Once3 *)
 
-  Record ufun := UFun { f_steps : nat; f_res : list V }.
+  Record ufun := UFun { f_steps : nat; f_res : list V; f_aborts : bool }.
 
   Inductive ostate := NotStarted | Running (t : tid) | ODone.
 
@@ -51,7 +60,8 @@ Section OnceModel.
   | PEnter (f : ufun)
   | PRun (f : ufun) (k : nat)
   | PWrite (res : list V) (i : nat)
-  | PRead (acc : list V).
+  | PRead (acc : list V)
+  | PDead.
 
   Inductive event :=
   | EInv (t : tid) (f : ufun)
@@ -60,6 +70,7 @@ Section OnceModel.
   | EFin (t : tid) (res : list V)
   | EWrite (t : tid) (i : nat) (v : V)
   | EDone (t : tid)
+  | EAbort (t : tid)
   | EPass (t : tid)
   | ERead (t : tid) (i : nat) (v : V)
   | ERet (t : tid) (r : list V).
@@ -110,7 +121,9 @@ Section OnceModel.
           | ODone => put ODone (c_R c) (Thread (th_prog th) (PRead []) (th_rets th)) (EPass t)
           end
       | PRun f (S k) => put (c_once c) (c_R c) (Thread (th_prog th) (PRun f k) (th_rets th)) (EUser t k)
-      | PRun f O => put (c_once c) (c_R c) (Thread (th_prog th) (PWrite (f_res f) 0) (th_rets th)) (EFin t (f_res f))
+      | PRun f O =>
+          if f_aborts f then put ODone (c_R c) (Thread (th_prog th) PDead (th_rets th)) (EAbort t)
+          else put (c_once c) (c_R c) (Thread (th_prog th) (PWrite (f_res f) 0) (th_rets th)) (EFin t (f_res f))
       | PWrite res i =>
           if i <? arity then
             let v := nth i res zero in
@@ -121,6 +134,7 @@ Section OnceModel.
             let v := nth (length acc) (c_R c) zero in
             put (c_once c) (c_R c) (Thread (th_prog th) (PRead (acc ++ [v])) (th_rets th)) (ERead t (length acc) v)
           else put (c_once c) (c_R c) (Thread (th_prog th) PIdle (th_rets th ++ [acc])) (ERet t acc)
+      | PDead => None
       end
     end.
 
@@ -163,26 +177,33 @@ Section OnceModel.
 
   (* Events of the invocation of f and of the bookkeeping of the winner. *)
   Definition is_work (e : event) : Prop :=
-    match e with EStart _ _ | EUser _ _ | EFin _ _ | EWrite _ _ _ | EDone _ => True | _ => False end.
+    match e with EStart _ _ | EUser _ _ | EFin _ _ | EWrite _ _ _ | EDone _ | EAbort _ => True | _ => False end.
+  Definition is_write (e : event) : Prop := match e with EWrite _ _ _ => True | _ => False end.
+
+  (* what every Do call returns once function f was the one invoked *)
+  Definition outcome_tuple (f : ufun) : list V := if f_aborts f then repeat zero arity else tuple (f_res f).
 
   Definition finished (c : config) : Prop :=
-    forall t th, nth_error (c_threads c) t = Some th -> th_pc th = PIdle /\ th_prog th = [].
+    forall t th, nth_error (c_threads c) t = Some th -> th_pc th = PDead \/ (th_pc th = PIdle /\ th_prog th = []).
 End OnceModel.
 
 Arguments UFun {V}.
 Arguments f_steps {V}.
 Arguments f_res {V}.
+Arguments f_aborts {V}.
 Arguments PIdle {V}.
 Arguments PEnter {V}.
 Arguments PRun {V}.
 Arguments PWrite {V}.
 Arguments PRead {V}.
+Arguments PDead {V}.
 Arguments EInv {V}.
 Arguments EStart {V}.
 Arguments EUser {V}.
 Arguments EFin {V}.
 Arguments EWrite {V}.
 Arguments EDone {V}.
+Arguments EAbort {V}.
 Arguments EPass {V}.
 Arguments ERead {V}.
 Arguments ERet {V}.
@@ -205,4 +226,6 @@ Arguments starts {V}.
 Arguments fins {V}.
 Arguments tuple {V}.
 Arguments is_work {V}.
+Arguments is_write {V}.
+Arguments outcome_tuple {V}.
 Arguments finished {V}.
